@@ -1232,13 +1232,16 @@ def bs_lookback_price(
     m1 = d1(s - m, t, v)  # d' in the paper
     m2 = d2(s - m, t, v)
 
+    # Note: v * sqrt(t) * d1(x) is written as x + v^2 t / 2 so that the prices
+    # stay finite (and equal to the payoff) at t = 0 or v = 0 where d1 = +-inf.
+    w = v * t.sqrt()
     # when max < strike
     price_0 = spot * (
-        ncdf(d1_value) + v * t.sqrt() * (d1_value * ncdf(d1_value) + npdf(d1_value))
+        ncdf(d1_value) + (s + w.square() / 2) * ncdf(d1_value) + w * npdf(d1_value)
     ) - strike * ncdf(d2_value)
     # when max >= strike
     price_1 = (
-        spot * (ncdf(m1) + v * t.sqrt() * (m1 * ncdf(m1) + npdf(m1)))
+        spot * (ncdf(m1) + (s - m + w.square() / 2) * ncdf(m1) + w * npdf(m1))
         - strike
         + max * (1 - ncdf(m2))
     )
